@@ -239,6 +239,30 @@ def op_terms(th):
             obs.append(obs_dec(op['settle'] or [], op['inner'] or [], ret, op['ret_err']))
     return C.coq_list(ops), C.coq_list(obs)
 
+def api_calls(case):
+    """the history as seen from outside: (key, start, end, duplicate?) per message the repository
+    was asked about, read off the outcomes and the harness's own clock readings — no hooks"""
+    calls = []
+    for th in case['threads']:
+        for op in th['ops']:
+            if op['kind'] == 'mw':
+                m = op['msgs'][0]
+                if m['key'] < 0 or op['ret'] not in ('dropped', 'pass'):
+                    continue
+                calls.append((m['key'], op['start'], op['end'], op['ret'] == 'dropped'))
+            elif op['kind'] == 'dec':
+                if op['ret'] != 'inner' or len(op.get('inner') or []) != 1:
+                    continue
+                left = list(op['inner'][0])
+                for m in op.get('msgs') or []:
+                    if m['key'] < 0:
+                        continue
+                    new = m['id'] in left
+                    if new:
+                        left.remove(m['id'])
+                    calls.append((m['key'], op['start'], op['end'], not new))
+    return calls
+
 def describe_conc(case, stats=None):
     d = dict(mode=case['mode'], hasher=case['hasher'], limit=case['limit'], window_ms=case['w_ns'] / 1e6, goroutines=len(case['threads']),
              seed=case['seed'], drained=case['drained'], len_end=case['len_end'],
@@ -305,6 +329,19 @@ def check_conc(pid, name, cases, res):
                                                case=describe_conc(case, st)))
                 res.mismatches.append(dict(kind='Corr.C14.conc_replay (Dedup/Model.v vs deduplicator.go): ' + '; '.join(CODES.get(k, str(k)) for k in mis[i]),
                                            explained_by_violation=bool(codes) or 5 in mis[i], case=describe_conc(case, st)))
+    # the API-level history of every case (also of those whose stamps could not be mapped)
+    apic = [c for c in cases if not c.get('panicked')]
+    for part, chunk in enumerate(C.chunks(apic, 30)):
+        terms = ['(%s, %s)' % (Z(c['w_ns']), C.coq_list(['(AC %s %s %s %s)' % (N(k), Z(s0), Z(e0), C.coq_bool(d)) for k, s0, e0, d in api_calls(c)])) for c in chunk]
+        r = C.coq_eval(pid, '%s_api_%d' % (name, part), HEADER + 'Definition cases : list (Z * list acall) := %s.\n' % C.coq_list(terms),
+                       [('R_vio', 'api_violations cases')])
+        res.extra.setdefault('api_histories', dict(histories=0, calls=0))
+        res.extra['api_histories']['histories'] += len(chunk)
+        res.extra['api_histories']['calls'] += sum(len(api_calls(c)) for c in chunk)
+        for i in r['R_vio']:
+            case = chunk[i]
+            res.violations.append(dict(signature='C14/api-history-rejected', what='seen from outside (call intervals and outcomes only): two messages with one key got through within one window, or a message was dropped as a duplicate although no message with its key had got through',
+                                       case=dict(describe_conc(case), calls=[dict(key=k, start=s0, end=e0, duplicate=d) for k, s0, e0, d in api_calls(case)][:60])))
     if mapped:
         case, _, contended, stats = max(mapped, key=lambda m: (m[0]['mode'] == 'expiry', m[3]['dup']))
         d = describe_conc(case, dict(stats, contended=contended)); d['threads'] = d['threads'][:3]
